@@ -208,6 +208,8 @@ pub struct Options {
     pub verif_root: PathBuf,
     pub max_wall_s: Option<f64>,
     pub write_evidence: bool,
+    /// Build variant label (thorough tier runs extra build profiles); evidence goes to <ID>.<variant>.json.
+    pub variant: Option<String>,
 }
 
 #[derive(Clone, Debug, Serialize, Deserialize)]
@@ -543,6 +545,7 @@ pub fn run_property<S: Scenario>(spec: &PropertySpec, opts: &Options) -> i32 {
                 "runs_per_hour": runs_per_hour.round(),
                 "seeds_per_hour": runs_per_hour.round(),
                 "jobs": jobs,
+                "build_variant": opts.variant.clone().unwrap_or_else(|| "default (opt-level 2, debug assertions on)".to_owned()),
                 "logical_time_covered": time,
                 "faults_fired": faults,
                 "fault_kinds_defined": spec.fault_kinds,
@@ -564,7 +567,10 @@ pub fn run_property<S: Scenario>(spec: &PropertySpec, opts: &Options) -> i32 {
         });
         let dir = opts.verif_root.join("evidence");
         let _ = std::fs::create_dir_all(&dir);
-        let path = dir.join(format!("{}.json", spec.id));
+        let path = match &opts.variant {
+            Some(v) => dir.join(format!("{}.{}.json", spec.id, v)),
+            None => dir.join(format!("{}.json", spec.id)),
+        };
         match serde_json::to_vec_pretty(&ev) {
             Ok(b) => {
                 if let Err(e) = std::fs::write(&path, b) {
